@@ -56,6 +56,11 @@ CHECKS = {
             "Epochs of 6 momentums. All histories of depth 3 (quick) / 4 + extended alphabet (thorough) over 12 operations (momentum, 3 momentums, skipped slot = missed momentum, delegate / undelegate, stake entering, stake leaving, explicit Update calls on stake and pillar contracts, CollectReward by staker / pillar / delegator) from 2 base states (just before the first epoch end with a stake and a delegation; two epochs in with a registered sentinel and pending rewards). After every transition for pillar, sentinel, stake and liquidity contracts: credited ZNN/QSR per epoch <= the contract's emission share recomputed from the tables; last rewarded epoch never decreases; an epoch's reward history never changes once written and none exists beyond the last rewarded epoch; for every address credited == collected (minted through CollectReward) + pending. At the end of every history a follower fed in one batch and a follower fed half / restarted with a wiped consensus cache / fed the rest must be byte-identical to the producer.",
             "Shrunk epoch/tick/update constants (mutually consistent); reward history read for all accounts that act in the histories.",
             "5/C11"),
+    "C12": ("exploration",
+            "exhaustive enumeration of difficulties x nonces against a big.Int reference + explicit-state exploration of unconfirmed block sequences with boundary plasma/PoW fields on real nodes against a reference plasma model",
+            "(a) 4269 difficulties ({1..4096} + 2^k-1,2^k,2^k+1 for k=1..64 + plasma-table boundaries +-1) x 256 (quick) / 4096 (thorough) nonces x 2 subjects through pow.CheckPoWNonce vs accept <=> LE64(sha3(nonce||H))>= 2^64 - floor(2^64/d) in big.Int; least-valid-nonce searches for d <= 2^20/2^23; target/comparison helpers at threshold +-1; DifficultyToPlasma on all 142.8M values of its range (+ sparse 64-bit set), GetDifficultyForPlasma on every plasma value, fused-amount conversion at every unit boundary. (b) on real nodes: accounts with fused QSR in {0,1,10,11,25,5000,5001} (+2 thorough), sequences of <=3/4 unconfirmed blocks of 6-9 kinds x 10-15 FusedPlasma values x 5-7 PoW claims (incl. real nonces), every candidate hand-built, hashed, signed and decided by Supervisor.ApplyBlock: accepted => total >= base cost of its kind, fused <= plasma of fused QSR minus fused plasma of unconfirmed predecessors, total <= cap, PoW honoured only per (a); committed/uncommitted counters and AvailablePlasma compared with the model after every insertion and every confirming momentum; stale-acknowledgement scenarios evaluated as of the acknowledged momentum.",
+            "Deep sequences go through one representative history per model state; fuse minimum/expiration constants lowered in the workers.",
+            "5/C12"),
     "C13": ("model_checking",
             "exhaustive enumeration of (accepted block, field alteration, sealing flavour) variants delivered to a follower before the producer's momentum + exhaustive codec round trips",
             "(b) every pooled block of 3 (quick) / 52 (thorough) real histories x every alteration of every field of the block and of each descendant (inside and outside the hash pre-image; ChangesHash/PublicKey/Signature bit flips, S+L encodings, plasma fields, descendant add/drop/duplicate/swap/nest, 49 non-canonical ABI encodings of call data) in three flavours (hash kept / recomputed / re-signed), delivered through the TxMsg RLP round trip to a follower's AddAccountBlocks and inside a DetailedMomentum through InsertChain while the producer keeps the original: the follower must refuse the variant, or store bytes equal to the producer's, accept the producer's momentum and stay byte-identical; accepted variants are escalated to a second producer and a fresh node. Momentum variants likewise. (a) protobuf, RLP (the three wire forms), nom JSON, rpc JSON and Copy() round trips of all real blocks/momentums plus 625 generated shapes and 36k JSON number/string spellings: same protobuf bytes and hash.",
